@@ -58,3 +58,22 @@ package vfs
 //@   trusted
 //@   tag ghost-pure
 //@   modifies nothing
+
+// File handles as byte streams (C13): avail(f) is the number of bytes from the handle's
+// position to the end of the file. openedSize records it for the most recently opened
+// handle, truncAt/truncCalls record File.Truncate calls.
+//@ ghost var openedSize uint64
+//@ ghost var truncCalls Int
+//@ ghost var truncAt int64
+//@ func (FS).OpenFileHandle
+//@   trusted
+//@   ensures [handle-or-error] (result1 == nil) == (result != nil)
+//@   ensures [size-fits] avail(result) <= 1 << 62
+//@   ensures [no-typed-nil] result != nil ==> dynptr(result) != nil
+//@   ghost openedSize = avail(result)
+//@   modifies nothing
+//@ func (File).Truncate
+//@   trusted
+//@   ghost truncCalls = truncCalls + 1
+//@   ghost truncAt = size
+//@   modifies nothing
